@@ -3,6 +3,7 @@ package main
 import (
 	"fmt"
 	"go/ast"
+	"strings"
 )
 
 // kvKernel translates the value of the unique `Key: value` element of a composite literal inside fn.
@@ -27,14 +28,84 @@ func kvKernel(rel, fn, key, leanName, params, resultTy string, sp Spec) func() s
 	}
 }
 
+// tupleKernel translates the values of several `Key: value` elements of composite literals inside fn into one tuple,
+// in the order of `keys`: which local goes into which field of a request / response. A swap in the source swaps the tuple.
+func tupleKernel(rel, fn string, keys []string, leanName, params, resultTy string, sp Spec) func() string {
+	return func() string {
+		fd := mustFunc(rel, fn)
+		t := &tr{sp: sp}
+		var vals, srcs []string
+		for _, key := range keys {
+			var found []*ast.KeyValueExpr
+			ast.Inspect(fd.Body, func(n ast.Node) bool {
+				if kv, ok := n.(*ast.KeyValueExpr); ok {
+					if id, ok := kv.Key.(*ast.Ident); ok && id.Name == key {
+						found = append(found, kv)
+					}
+				}
+				return true
+			})
+			if len(found) != 1 {
+				panic(bail{fmt.Sprintf("%s: expected exactly one `%s:` element in %s, found %d", rel, key, fn, len(found))})
+			}
+			vals = append(vals, t.expr(found[0].Value))
+			srcs = append(srcs, src(found[0]))
+		}
+		return fmt.Sprintf("/-- generated from %s func %s: `%s` -/\ndef %s %s : %s :=\n  (%s)\n", rel, fn, strings.Join(srcs, ", "), leanName, params, resultTy, strings.Join(vals, ", "))
+	}
+}
+
+// relayKernel: the unique assignment in fn whose right-hand side is exactly `rhs` (what is relayed into the response).
+func relayKernel(rel, fn, lhs, rhs, leanName, params, resultTy string, sp Spec) func() string {
+	return func() string {
+		fd := mustFunc(rel, fn)
+		t := &tr{sp: sp}
+		ss := findStmts(fd, func(s ast.Stmt) bool {
+			a, ok := s.(*ast.AssignStmt)
+			return ok && len(a.Lhs) == 1 && len(a.Rhs) == 1 && src(a.Lhs[0]) == lhs && src(a.Rhs[0]) == rhs
+		})
+		if len(ss) != 1 {
+			panic(bail{fmt.Sprintf("%s: expected exactly one `%s = %s` in %s, found %d", rel, lhs, rhs, fn, len(ss))})
+		}
+		return fmt.Sprintf("/-- generated from %s func %s: `%s` -/\ndef %s %s : %s :=\n  %s\n", rel, fn, src(ss[0]), leanName, params, resultTy, t.expr(ss[0].(*ast.AssignStmt).Rhs[0]))
+	}
+}
+
 // C06: how LogSTHGetter.GetSTH turns the backend's log root into the served tree head.
 func init() {
 	s := "trillian/ctfe/sth.go"
+	h := "trillian/ctfe/handlers.go"
 	repl := map[string]string{"currentRoot.TimestampNanos": "tsNanos_", "currentRoot.TreeSize": "treeSize_"}
 	register(genFile{name: "FrontEnd", imports: []string{"CTV.Basic.I64"}, units: []unit{
 		{"sthTimestamp", kvKernel(s, "LogSTHGetter.GetSTH", "Timestamp", "sthTimestamp", "(tsNanos_ : Int)", "Int",
 			Spec{Kind: "u64", Repl: repl})},
 		{"sthTreeSize", kvKernel(s, "LogSTHGetter.GetSTH", "TreeSize", "sthTreeSize", "(treeSize_ : Int)", "Int",
 			Spec{Kind: "u64", Repl: repl})},
+		{"sigCacheMiss", condKernel("trillian/ctfe/serialize.go", "SignatureCache.GetSignature", []string{"bytes.Equal"}, "sigCacheMiss", "(sameInput : Bool)",
+			Spec{Repl: map[string]string{"bytes.Equal(input, sc.input)": "sameInput"}})},
+		// --- what the three proof-serving handlers forward to the backend and relay back (handlers.go)
+		{"consNeedsBackend", condKernel(h, "getSTHConsistency", []string{"first != 0"}, "consNeedsBackend", "(first_ : Int)", Spec{Kind: "i64"})},
+		{"reqGetConsistencyProof", tupleKernel(h, "getSTHConsistency", []string{"FirstTreeSize", "SecondTreeSize"}, "reqGetConsistencyProof",
+			"(first_ second_ : Int)", "Int × Int", Spec{Kind: "i64"})},
+		{"consRootTooSmall", condKernel(h, "getSTHConsistency", []string{"currentRoot.TreeSize"}, "consRootTooSmall", "(rootSize_ second_ : Int)",
+			Spec{Kind: "u64", Repl: map[string]string{"currentRoot.TreeSize": "rootSize_"}})},
+		{"relayConsistency", relayKernel(h, "getSTHConsistency", "jsonRsp.Consistency", "rsp.Proof.Hashes", "relayConsistency", "{α : Type} (proofHashes_ : α)", "α",
+			Spec{Repl: map[string]string{"rsp.Proof.Hashes": "proofHashes_"}})},
+		{"proofByHashBadSize", condKernel(h, "getProofByHash", []string{"treeSize < 1"}, "proofByHashBadSize", "(parseErr : Bool) (treeSize_ : Int)",
+			Spec{Kind: "i64", Repl: map[string]string{"err != nil": "parseErr"}})},
+		{"reqGetInclusionProofByHash", tupleKernel(h, "getProofByHash", []string{"LeafHash", "TreeSize"}, "reqGetInclusionProofByHash",
+			"{α : Type} (leafHash_ : α) (treeSize_ : Int)", "α × Int", Spec{Kind: "i64"})},
+		{"proofByHashRootTooSmall", condKernel(h, "getProofByHash", []string{"currentRoot.TreeSize"}, "proofByHashRootTooSmall", "(rootSize_ treeSize_ : Int)",
+			Spec{Kind: "u64", Repl: map[string]string{"currentRoot.TreeSize": "rootSize_"}})},
+		{"relayProofByHash", tupleKernel(h, "getProofByHash", []string{"LeafIndex", "AuditPath"}, "relayProofByHash",
+			"{α β : Type} (firstProofLeafIndex_ : α) (firstProofHashes_ : β)", "α × β",
+			Spec{Repl: map[string]string{"rsp.Proof[0].LeafIndex": "firstProofLeafIndex_", "rsp.Proof[0].Hashes": "firstProofHashes_"}})},
+		{"reqGetEntryAndProof", tupleKernel(h, "getEntryAndProof", []string{"LeafIndex", "TreeSize"}, "reqGetEntryAndProof",
+			"(leafIndex_ treeSize_ : Int)", "Int × Int", Spec{Kind: "i64"})},
+		{"entryAndProofRootTooSmall", condKernel(h, "getEntryAndProof", []string{"currentRoot.TreeSize"}, "entryAndProofRootTooSmall", "(rootSize_ treeSize_ : Int)",
+			Spec{Kind: "u64", Repl: map[string]string{"currentRoot.TreeSize": "rootSize_"}})},
+		{"relayEntryAndProof", tupleKernel(h, "getEntryAndProof", []string{"LeafInput", "ExtraData", "AuditPath"}, "relayEntryAndProof",
+			"{α β : Type} (leafValue_ extraData_ : α) (proofHashes_ : β)", "α × α × β",
+			Spec{Repl: map[string]string{"rsp.Leaf.LeafValue": "leafValue_", "rsp.Leaf.ExtraData": "extraData_", "rsp.Proof.Hashes": "proofHashes_"}})},
 	}})
 }
